@@ -14,7 +14,8 @@ REAL_INDEX = ["cloudsync.sync.state:SyncState._change_oid", "cloudsync.sync.stat
 
 
 @lemma(props=["C11", "C08"], configs="sides", raises=["AssertionError"],
-       inline=["cloudsync.sync.state:SyncState._change_oid", "cloudsync.sync.state:SyncState._change_path"])
+       inline=["cloudsync.sync.state:SyncState._change_oid", "cloudsync.sync.state:SyncState._change_path",
+               "cloudsync.sync.state:SyncState.lookup_oid"])
 def oid_assignment_maintains_index_and_pending_set(w: World, oid: opt_str):
     """Assigning an entry's oid: the oid slot leads to the entry (I1/I3); the pending set contains the entry exactly
     when it has a change flag with an oid (I4, given it did before); every entry whose persisted fields changed --
@@ -24,11 +25,14 @@ def oid_assignment_maintains_index_and_pending_set(w: World, oid: opt_str):
     side = w.changed
     assume(oid is None or len(oid) > 0)
     assume(in_changeset(state, ent) == has_pending_change(ent))
+    other_flag_without_oid = truthy(ent[1 - side].changed) and ent[1 - side].oid is None
     ent[side].oid = oid
     check(ent[side].oid == oid, "the oid is recorded")
     if oid is not None:
         check(state.lookup_oid(side, oid) is ent, "the oid slot leads to the entry")
-    check(in_changeset(state, ent) == has_pending_change(ent), "pending set membership is exact for the entry")
+    check(implies(has_pending_change(ent), in_changeset(state, ent)), "a pending change is never lost from the pending set")
+    if not other_flag_without_oid:
+        check(in_changeset(state, ent) == has_pending_change(ent), "pending set membership is exact for the entry")
     for e in all_entries(state):
         check(implies(persisted_changed(e), is_dirty(state, e)), "every entry whose persisted fields changed is dirty")
         if e is not ent:
